@@ -104,5 +104,10 @@ def internalInsertRetrySkeleton : List String := ["while (!try_insert(prev, new_
   "}",
   "curr = search_result.first",
   "}"]
+def slFreeOnThrowUnlinked : Bool := false
+def slFreeOnThrowLinked : Bool := false
+def uoFreeOnThrowUnlinked : Bool := false
+def slThrowSitesAfterLink : List String := ["internal_find_position"]
+def uoThrowSitesAfterLink : List String := []
 
 end TbbVerif.Generated.C12
